@@ -18,6 +18,22 @@ type stressSub struct {
 	CancelDelayUs int    `json:"cancel_delay_us,omitempty"`
 	K             int    `json:"k,omitempty"`
 	HookDelayUs   int    `json:"hook_delay_us,omitempty"`
+	// early only: the subscriber does not call cancel() after CancelDelayUs, its context is a
+	// context.WithTimeout(CancelDelayUs) (0 = already expired when it subscribes)
+	ByDeadline bool `json:"by_deadline,omitempty"`
+}
+
+// markDeadlines turns a share of the early cancels into context deadlines. Drawn from its own
+// random stream so that the rest of the generated case is unchanged.
+func markDeadlines(p *stressParam, r *rand.Rand) {
+	for i := range p.Subs {
+		if p.Subs[i].Cancel == "early" && r.IntN(5) < 2 {
+			p.Subs[i].ByDeadline = true
+			if r.IntN(6) == 0 {
+				p.Subs[i].CancelDelayUs = 0
+			}
+		}
+	}
 }
 
 type stressParam struct {
@@ -119,10 +135,18 @@ func runStress(p stressParam, withCancel bool, tag string) *runReport {
 			if sp.StartDelayUs > 0 {
 				time.Sleep(time.Duration(sp.StartDelayUs) * time.Microsecond)
 			}
+			if plan == "early" && sp.ByDeadline {
+				s.leaveByDeadline(time.Duration(sp.CancelDelayUs)*time.Microsecond, "deadline")
+			}
 			s.start()
 			switch plan {
 			case "early":
-				if sp.CancelDelayUs > 0 {
+				if sp.ByDeadline {
+					<-s.ctx.Done()
+					e.mu.Lock()
+					e.cancels["by-deadline"]++
+					e.mu.Unlock()
+				} else if sp.CancelDelayUs > 0 {
 					time.Sleep(time.Duration(sp.CancelDelayUs) * time.Microsecond)
 				}
 				phase := "after-return"
